@@ -155,7 +155,11 @@ impl NameCompressor {
 
         // If there is a non-empty uncompressed prefix, register it as a new
         // entry here.
-        if !name.is_empty() && contents.len() < 16384 {
+        //
+        // A compression pointer addresses the whole message, i.e. including
+        // the 12-byte header, with 14 bits. Every label of the new entry has
+        // to be reachable that way.
+        if !name.is_empty() && contents.len() + name.len() + 12 <= 16384 {
             // SAFETY: 'name' is a non-empty sequence of labels.
             let first = unsafe {
                 LabelIter::new_unchecked(name).next().unwrap_unchecked()
@@ -312,7 +316,11 @@ impl NameCompressor {
 
         // If there is a non-empty uncompressed prefix, register it as a new
         // entry here. We already know what the hash of its last label is.
-        if !name.is_empty() && contents.len() < 16384 {
+        //
+        // A compression pointer addresses the whole message, i.e. including
+        // the 12-byte header, with 14 bits. Every label of the new entry has
+        // to be reachable that way.
+        if !name.is_empty() && contents.len() + name.len() + 12 <= 16384 {
             // Pick the entry that was least recently used (or uninitialized).
             //
             // By the invariants of 'last_use', it is guaranteed that this
